@@ -12,6 +12,8 @@ import (
 	"fmt"
 	"io"
 	"sort"
+	"strconv"
+	"strings"
 
 	"github.com/go-git/go-git/v6/plumbing"
 	"github.com/go-git/go-git/v6/plumbing/format/packfile"
@@ -92,7 +94,7 @@ func main() {
 		}
 
 		var out bytes.Buffer
-		var post lib.Out = lib.None()
+		var post lib.Out = lib.Sym("none")
 		opts := &transport.ReceivePackRequest{StatelessRPC: true}
 		if c.Bool("reject") {
 			opts.Hooks.PreReceive = func(context.Context, *transport.PreReceiveInfo) error {
@@ -100,9 +102,9 @@ func main() {
 			}
 		}
 		opts.Hooks.PostReceive = func(_ context.Context, info *transport.PostReceiveInfo) error {
-			l := []lib.Out{lib.Sym("post")}
+			var l []lib.Out
 			for _, k := range info.Commands {
-				l = append(l, lib.List(nameIdx(u, string(k.Name)), hashIdx(u, k.Old), hashIdx(u, k.New)))
+				l = append(l, lib.Sym("c"+nameIdx(u, string(k.Name))+"_"+hashIdx(u, k.Old)+"_"+hashIdx(u, k.New)))
 			}
 			post = lib.List(l...)
 			return nil
@@ -113,23 +115,19 @@ func main() {
 		if rerr != nil {
 			result = lib.Sym("err")
 		}
-		var report lib.Out = lib.None()
+		var report lib.Out = lib.Sym("none")
 		if out.Len() > 0 {
 			rs := &packp.ReportStatus{}
 			if err := rs.Decode(bytes.NewReader(out.Bytes())); err != nil {
 				report = lib.Sym("undecodable")
 			} else {
-				l := []lib.Out{lib.Sym("unpack_ok")}
-				if rs.UnpackStatus != "ok" {
-					l[0] = lib.Sym("unpack_err")
-				}
 				type ent struct {
 					n  int
 					ok bool
 				}
 				var es []ent
 				for _, cs := range rs.CommandStatuses {
-					n := -1
+					n := 1 << 20
 					for i, nm := range u.Names {
 						if nm == string(cs.ReferenceName) {
 							n = i
@@ -139,42 +137,39 @@ func main() {
 				}
 				// canonical order: by name, keeping the order of entries of one name
 				sort.SliceStable(es, func(i, j int) bool { return es[i].n < es[j].n })
-				for _, e := range es {
-					s := "ng"
-					if e.ok {
-						s = "ok"
+				kg := func(b bool) string {
+					if b {
+						return "k"
 					}
-					l = append(l, lib.List(lib.Int(int64(e.n)), lib.Sym(s)))
+					return "g"
 				}
-				report = lib.List(l...)
+				var b strings.Builder
+				b.WriteString("R" + kg(rs.UnpackStatus == "ok"))
+				for _, e := range es {
+					b.WriteString("_" + strconv.Itoa(e.n) + kg(e.ok))
+				}
+				report = lib.Sym(b.String())
 			}
 		}
 		return lib.List(result, report, post, u.RefsListing(st), u.ObjsListing(st)), nil
 	})
 }
 
-func nameIdx(u *b10store.Universe, n string) lib.Out {
+func nameIdx(u *b10store.Universe, n string) string {
 	for i, nm := range u.Names {
 		if nm == n {
-			return lib.Int(int64(i))
+			return strconv.Itoa(i)
 		}
 	}
-	return lib.Str(n)
+	return "Xname"
 }
 
-func hashIdx(u *b10store.Universe, h plumbing.Hash) lib.Out {
+func hashIdx(u *b10store.Universe, h plumbing.Hash) string {
 	if h.IsZero() {
-		return lib.Sym("zero")
+		return "z"
 	}
-	for i, x := range u.Hashes {
-		if x == h {
-			return lib.Int(int64(i))
-		}
+	if k, ok := u.IdxOf(h); ok {
+		return strconv.Itoa(k)
 	}
-	for k := len(u.Hashes); k < len(u.Hashes)+8; k++ {
-		if u.Hash(k) == h {
-			return lib.Int(int64(k))
-		}
-	}
-	return lib.Str(h.String())
+	return "Xhash"
 }
